@@ -108,7 +108,8 @@ Definition upd (k : mkind) (a : agg) (c : cell) : agg :=
       match c with CNull => a | _ => ACount (wrap_i64 (n + 1)) end
   | MCountUnique, AUnique s =>
       (* a typed i64 column has no string view: [agg_count_unique_typed_empty] (regenerated
-         from ops.rs) says whether such a cell is counted as "" or as its decimal text *)
+         from ops.rs) says whether such a cell is counted as "" or as its decimal text
+         (the latter since 6631182) *)
       AUnique (set_insert (match c with
                            | CStr x => x
                            | CInt z => if agg_count_unique_typed_empty then [] else dec_of_Z z
@@ -320,7 +321,8 @@ Definition flow_rows (p : plan) (ng nf : nat) (batches : list (list row)) : list
     real pre-hash: equal keys with different hashes are two map entries, and
     [into_partial] keeps only one of them (which one depends on the map's random
     iteration order).  [agg_columnar_default_prehash_zero] is regenerated from
-    columnar.rs by the translator. *)
+    columnar.rs / group_key.rs by the translator; since d49da47 ([compute_prehash] returns 0 for
+    the empty key) it is [false] and the columnar slot below is never used. *)
 Definition ungrouped (p : plan) : bool :=
   negb (p_by p) && match p_gran p with None => true | Some _ => false end.
 
